@@ -277,13 +277,17 @@ class AccessorMatrix(Leg):
             if isinstance(o["L"]._edge_whitelist, dict):
                 private += list(o["L"]._edge_whitelist.values())
             alias = any(cont is p for p in private)
+            # the result of a LATER call, held while the first result is edited: it must not follow the edit
+            cont2 = ACCESSORS[case["accessor"]](w, o)
+            shape2 = _shape(cont2)
             junk = Vertex()
             how = try_edit(cont, case["edit"], junk)
+            twin = how == "done" and _shape(cont2) != shape2
             after = full_view(w, o)
             # drop the junk vertex from the comparison (it is a new object, allocated after `before`)
             n = len(before["snap"]["kind"])
             after["snap"] = {k: v[:n] for k, v in after["snap"].items()}
-            return {"how": how, "alias": alias, "same": before == after, "type": type(cont).__name__,
+            return {"how": how, "alias": alias, "twin": twin, "same": before == after, "type": type(cont).__name__,
                     "diff": None if before == after else _first_diff(before, after)}
         finally:
             w.close()
@@ -292,6 +296,9 @@ class AccessorMatrix(Leg):
         m = []
         if obs["alias"]:
             m.append(f"{case['accessor']} returned a private container object itself (caching={case['caching']})")
+        if obs.get("twin"):
+            m.append(f"editing ({case['edit']}) the {obs['type']} returned by {case['accessor']} changed the container returned by a "
+                     f"second call of the same accessor (caching={case['caching']}): the two calls share one object")
         if not obs["same"]:
             m.append(f"editing ({case['edit']}: {obs['how']}) the {obs['type']} returned by {case['accessor']} changed later reads "
                      f"(caching={case['caching']}): {obs['diff']}")
@@ -312,6 +319,17 @@ def _first_diff(a, b, path=""):
             if a[k] != b.get(k):
                 return _first_diff(a[k], b.get(k), path + "/" + str(k))
     return f"{path}: {a} -> {b}"
+
+
+def _shape(c):
+    """contents of a container by identity of its elements (nested for mappings)"""
+    if isinstance(c, (dict, types.MappingProxyType)):
+        return ("map", tuple((id(k), _shape(v)) for k, v in c.items()))
+    if isinstance(c, (set, frozenset)):
+        return ("set", tuple(sorted(id(x) for x in c)))
+    if isinstance(c, (list, tuple)):
+        return ("seq", tuple(id(x) for x in c))
+    return ("atom", id(c))
 
 
 # ---------------------------------------------------------------------------------------------
